@@ -446,8 +446,20 @@ def job_dssr(spec):
             res["verdicts"].append({"ob": f"parse_dssr_output raised {type(out).__name__}: {out}", "v": v, "key": "parse_dssr_output:exception", "w": w})
             continue
         res["reach"] += 1
-        pairs = [(p.nt1.full_name, p.nt2.full_name, p.lw.name) for p in out.basePairs]
-        stacks = [(s.nt1.full_name, s.nt2.full_name) for s in out.stackings]
+        def fn(r):
+            return None if r is None else r.full_name
+        pairs = [(fn(p.nt1), fn(p.nt2), getattr(p.lw, "name", None)) for p in out.basePairs]
+        stacks = [(fn(s.nt1), fn(s.nt2)) for s in out.stackings]
+        if any(None in t for t in pairs + stacks):
+            # an interaction whose residue (or class) did not resolve was kept
+            v, m, _ = eng.prove(path, z3.BoolVal(True))
+            w = None
+            if m is not None:
+                w = {"mode": mode, "LW": B.conc(lw, m)} if mode == "lw" else ({"mode": mode, "pre": B.conc(pre, m), "nt1": B.conc(nt1, m), "nt2": B.conc(nt2, m)}
+                                                                               if mode == "names" else {"mode": mode, "mid": B.conc(mid, m)})
+            res["verdicts"].append({"ob": f"an interaction with an unresolved residue or class was kept: pairs {pairs}, stackings {stacks}", "v": v,
+                                    "key": "parse_dssr_output:" + {"lw": "lw", "names": "names"}.get(mode, "stacks"), "w": w})
+            continue
         if mode == "lw":
             valid = z3.Or([beq(lw, n) for n in LWNAMES])
             if pairs:
@@ -518,7 +530,9 @@ try:
     out = parse_dssr_output(p, s3)
 except Exception as e:
     print("raised", type(e).__name__, repr(e)); sys.exit(1)
-pairs = [(x.nt1.full_name, x.nt2.full_name, x.lw.name) for x in out.basePairs]; stacks = [(s.nt1.full_name, s.nt2.full_name) for s in out.stackings]
+fn = lambda r: None if r is None else r.full_name
+pairs = [(fn(x.nt1), fn(x.nt2), getattr(x.lw, "name", None)) for x in out.basePairs]; stacks = [(fn(s.nt1), fn(s.nt2)) for s in out.stackings]
+if any(None in t for t in pairs + stacks): print("kept an interaction with an unresolved residue or class:", pairs, stacks); sys.exit(1)
 print(doc, "->", pairs, stacks)
 LW = [x.name for x in LeontisWesthof]
 if w["mode"] == "lw":
